@@ -350,7 +350,7 @@ func hexAll(bs [][]byte) []string {
 // TestC09Race: concurrent Size/Marshal/MarshalTo on a message nobody mutates (fresh cache at start,
 // so first-use initialisation races are exercised).  Meant to run in a -race binary.
 func TestC09Race(t *testing.T) {
-	rec := ev.New("C09", "concurrent clause: N in {2,8,32} goroutines released together call Size / Marshal / MarshalTo / csproto.Marshal on ONE unmutated message whose size cache is empty at the start; every output must equal the bytes of a fresh copy; the binary is built with -race")
+	rec := ev.New("C09", "concurrent clause: N in {2,8,32} goroutines released together call Size / Marshal / MarshalTo / csproto.Marshal on ONE unmutated message whose size cache is empty at the start (1 in 3: a message-typed map value is a nil pointer); every output must equal the bytes of a fresh copy; the binary is built with -race")
 	defer rec.Write()
 	useRecorder(rec)
 	defer func() { t.Log(rec.Summary()) }()
@@ -375,7 +375,7 @@ func TestC09Race(t *testing.T) {
 		mt := rapid.SampledFrom(byVariant[variant]).Draw(rt, "type")
 		rec.Class("variant/" + variant)
 		_, b := canon(genDyn(rt, mt.Desc, 2, genOpts{runtime: mt.Info.Runtime, requiredProb: 10, maxMap: 1}))
-		c := &GCase{Type: mt.Key(), Value: b}
+		c := &GCase{Type: mt.Key(), Value: b, NilMapValue: rapid.IntRange(0, 2).Draw(rt, "nilmapvalue") == 0}
 		n := rapid.SampledFrom([]int{2, 8, 32}).Draw(rt, "goroutines")
 		iters := rapid.IntRange(1, 20).Draw(rt, "iters")
 		rec.Journal("racecase", c)
